@@ -56,11 +56,24 @@ THEOREMS = [
     "C04_now_checked_without_activation",
     "C04_activation_not_rechecked",
     "C04_activation_value_refused",
+    "C04_sound_now",
+    "C04_sound_args_fixed",
+    "C04_total_now",
+    "C04_refl_now",
+    "C04_sound_witness_mapping",
+    "C04_now_needs_no_empty_tuple",
+    "C04_now_needs_litclean",
+    "C04_now_needs_isinstance_agrees",
+    "C04_args_fixed_behaviour",
+    "C04_gate_sound_now",
 ]
 RULE = (
-    "(1) pair cases: ordered pairs of REAL hint objects from the grammar cls | None | X|Y | Union/Optional | Literal | "
-    "Annotated | list/set/dict/tuple[...]/tuple[X, ...]/tuple[()]/type/Callable generics over the class lattice "
-    "object, int>bool, float, str, list, set, frozenset, dict, tuple, type, NoneType, Callable, A>B>C, D; "
+    "(1) pair cases: ordered pairs of REAL hint objects from the grammar cls | None | typing.Any | X|Y | Union/Optional | "
+    "Literal (also mixing 1/True) | Annotated | list/set/dict/tuple[...]/tuple[X, ...]/tuple[()]/type/Callable/"
+    "Sequence[X]/Mapping[K, V] generics | the bare typing aliases List/Set/Dict/Tuple/Type/Callable/Sequence/Mapping, "
+    "each generic also spelled with its typing alias (typing.List[int] ...), over the class lattice "
+    "object, int>bool, float, str, list, set, frozenset, dict, tuple, type, NoneType, Callable, Sequence>list,tuple,str, "
+    "Mapping>dict, A>B>C, D; "
     "quick: ~2500 pairs = exhaustive-depth-1 sample + random depth<=2 + related pairs (input derived from the output "
     "by generalising steps, so that accepted pairs are frequent); thorough: ALL ordered pairs of the depth<=1 "
     "enumeration over the small alphabet + 65000 random/related pairs to depth 3. Each pair: comparison both ways of "
@@ -77,8 +90,15 @@ RULE = (
     "later steps (flag toggles on either side, witness values pushed through the link, the link asked for again); "
     "quick: every via x flags with one incompatible and one compatible hand-picked pair + presence block + 450 random "
     "(~650); thorough: the full cross product with 12+11 pairs and 4 switch mechanisms + 7000 random. "
+    "(3) exotic cases, oracle only (no model): ~115 named hints beyond the modelled grammar (TypeVar bound/constrained, "
+    "NewType, Protocol, TypedDict, ForwardRef and plain strings, Self/Never/LiteralString/Final/ClassVar, user Generic "
+    "classes, collections.abc / collections generics, Callable with hinted parameters / Concatenate / ParamSpec, "
+    "type[generic], Annotated[Any], tuple[int, *tuple[str, ...]], numpy scalar types / ndarray / NDArray, pint Quantity) "
+    "x an adversarial witness pool (C03's: look-alikes of pint quantities, lying numbers, subclasses with odd "
+    "__eq__/__hash__, real pint quantities, numpy scalars and arrays; + plain near misses): quick = all pairs inside "
+    "each of 10 families + 500 random pairs, thorough = all ordered pairs. "
     "non-trivial = the comparison answered and at least one side is not a bare class (pairs); both hinted and the link "
-    "attempt answered ok/refused (gate cases)"
+    "attempt answered ok/refused (gate cases); the comparison answered (exotic)"
 )
 TRUSTED = [
     "Model/Hint.lean transcribes type_hint_is_as_or_more_specific_than / type_hint_to_tuple / _get_type_hints / "
@@ -95,10 +115,14 @@ TRUSTED = [
     "RecursionError under a lowered recursion limit stands for non-termination (model: no answer for any fuel)",
 ]
 ASSUMPTIONS = [
-    "hints outside the grammar (typing.List/Mapping/Any/TypeVar/Protocol, type[generic], nested Callable parameter "
-    "hints) are out of scope",
-    "Literal[...] listing both 1 and True (or 0 and False) is rejected by typeguard itself for one of them; such "
-    "hints appear only in the corpus (known finding KF-C04-5)",
+    "hints outside the modelled grammar (TypeVar/NewType/Protocol/TypedDict/forward references/Self, type[generic], "
+    "hints as Callable parameters, collections.abc generics other than Sequence/Mapping, numpy/pint types) are checked by "
+    "the oracle only (exotic cases), not against the model; Annotated[Any] is excluded from the modelled generator "
+    "because valid_value raises for it (KF-C04-7)",
+    "Literal[...] listing both 1 and True (or 0 and False) is rejected by typeguard itself for one of them (known "
+    "finding KF-C04-5); generated in the unrestricted half only",
+    "adversarial witnesses whose own overridden __eq__/__len__/... raise are used for soundness judgements when "
+    "valid_value answers; an exception they raise themselves is not counted as a crash of valid_value",
     "strict_hints is read as the documented opt-out of the RECEIVING channel: a link accepted while the receiver's "
     "flag is off is outside the guarantee (also after the flag is switched on again: connections are not re-validated, "
     "values are then refused one by one - theorem C04_activation_not_rechecked); the sender's flag and the identity of "
@@ -110,9 +134,9 @@ ASSUMPTIONS = [
 EXHAUSTIVE = {"quick": False, "thorough": True}
 EXPLANATION = (
     "The tree's behaviour on four distinguishing probes (old-union expansion, literal leaf equality, isinstance-first "
-    "admission, empty-tuple rule) selects the model Cfg the correspondence is checked against; it is recorded as "
-    "histogram key variant:<abcd> (0000 = pinned, 1100 = both proposed patches, 1111 = Cfg.repaired). A tree that "
-    "matches no Cfg diverges."
+    "admission, args rule = tuple[int] vs tuple[()]) selects the model Cfg the correspondence is checked against; it is "
+    "recorded as histogram key variant:<abcd> (0000 = pinned, 1100 = Cfg.now, 1101 = with fixes/C04-args-rule.patch, "
+    "1111 = Cfg.repaired). A tree that matches no Cfg diverges."
 )
 
 
@@ -136,9 +160,10 @@ class D:
 
 
 def _classes():
-    from collections.abc import Callable
+    from collections.abc import Callable, Mapping, Sequence
 
     return {
+        "Sequence": Sequence, "Mapping": Mapping,
         "object": object, "int": int, "bool": bool, "float": float, "str": str, "list": list, "set": set,
         "frozenset": frozenset, "dict": dict, "tuple": tuple, "type": type, "NoneType": type(None),
         "Callable": Callable, "function": types.FunctionType, "A": A, "B": B, "C": C, "D": D,
@@ -170,8 +195,14 @@ class HarnessBug(Exception):
 # ----------------------------------------------------------------------------- hints: term -> object -> term
 
 
-def build(t):
-    """hint term -> real Python hint object"""
+ALIASES = {"list": "List", "set": "Set", "dict": "Dict", "tuple": "Tuple", "type": "Type", "Callable": "Callable",
+           "Sequence": "Sequence", "Mapping": "Mapping"}
+
+
+def build(t, sp=0):
+    """hint term -> real Python hint object; sp=1 spells generics with the `typing` aliases (typing.List[int], ...),
+    which have the same origin and arguments"""
+    import collections.abc as abc
     from collections.abc import Callable
 
     k = t[0]
@@ -179,31 +210,40 @@ def build(t):
         return CLS[t[1]]
     if k == "N":
         return None
+    if k == "any":
+        return typing.Any
+    if k == "ba":
+        return getattr(typing, ALIASES[t[1]])
+    if k == "sq":
+        return (typing.Sequence if sp else abc.Sequence)[build(t[1], sp)]
+    if k == "mp":
+        return (typing.Mapping if sp else abc.Mapping)[build(t[1], sp), build(t[2], sp)]
     if k == "un":
-        ms = [build(x) for x in t[1]]
+        ms = [build(x, sp) for x in t[1]]
         return functools.reduce(operator.or_, ms)
     if k == "uo":
-        return typing.Union[tuple(build(x) for x in t[1])]  # noqa: UP007
+        return typing.Union[tuple(build(x, sp) for x in t[1])]  # noqa: UP007
     if k == "lit":
         return typing.Literal[tuple(build_lit(x) for x in t[1])]
     if k == "an":
-        return typing.Annotated[build(t[1]), "meta"]
+        return typing.Annotated[build(t[1], sp), "meta"]
     if k == "li":
-        return list[build(t[1])]
+        return (typing.List if sp else list)[build(t[1], sp)]
     if k == "se":
-        return set[build(t[1])]
+        return (typing.Set if sp else set)[build(t[1], sp)]
     if k == "di":
-        return dict[build(t[1]), build(t[2])]
+        return (typing.Dict if sp else dict)[build(t[1], sp), build(t[2], sp)]
     if k == "tf":
-        return tuple[tuple(build(x) for x in t[1])] if t[1] else tuple[()]
+        T = typing.Tuple if sp else tuple
+        return T[tuple(build(x, sp) for x in t[1])] if t[1] else T[()]
     if k == "tv":
-        return tuple[build(t[1]), ...]
+        return (typing.Tuple if sp else tuple)[build(t[1], sp), ...]
     if k == "ty":
-        return type[build(t[1])]
+        return (typing.Type if sp else type)[build(t[1], sp)]
     if k == "caE":
-        return Callable[..., build(t[1])]
+        return (typing.Callable if sp else Callable)[..., build(t[1], sp)]
     if k == "caP":
-        return Callable[[CLS[c] for c in t[1]], build(t[2])]
+        return (typing.Callable if sp else Callable)[[CLS[c] for c in t[1]], build(t[2], sp)]
     raise Unsupported(str(t))
 
 
@@ -229,10 +269,20 @@ def abstract(o):
 
     if o is None:
         return ["N"]
+    if o is typing.Any:
+        return ["any"]
     if id(o) in CLS_NAME:
         return ["c", CLS_NAME[id(o)]]
     g = typing.get_origin(o)
     if g is None:
+        raise Unsupported(repr(o))
+    if not hasattr(o, "__args__"):
+        # a bare alias of `typing`: an origin, no arguments
+        names = {list: "list", set: "set", dict: "dict", tuple: "tuple", type: "type",
+                 collections.abc.Callable: "Callable", collections.abc.Sequence: "Sequence",
+                 collections.abc.Mapping: "Mapping"}
+        if g in names and o is getattr(typing, ALIASES[names[g]]):
+            return ["ba", names[g]]
         raise Unsupported(repr(o))
     if g is typing.Annotated:
         return ["an", abstract(o.__origin__)]
@@ -243,6 +293,10 @@ def abstract(o):
         return ["uo", [abstract(a) for a in args]]
     if g is typing.Literal:
         return ["lit", [abstract_lit(a) for a in args]]
+    if g is collections.abc.Sequence and len(args) == 1:
+        return ["sq", abstract(args[0])]
+    if g is collections.abc.Mapping and len(args) == 2:
+        return ["mp", abstract(args[0]), abstract(args[1])]
     if g is list and len(args) == 1:
         return ["li", abstract(args[0])]
     if g is set and len(args) == 1:
@@ -279,6 +333,14 @@ def tok(t) -> list[str]:
         return ["c", t[1]]
     if k == "N":
         return ["N"]
+    if k == "any":
+        return ["any"]
+    if k == "ba":
+        return ["ba", t[1]]
+    if k == "sq":
+        return ["sq"] + tok(t[1])
+    if k == "mp":
+        return ["mp"] + tok(t[1]) + tok(t[2])
     if k in ("un", "uo", "tf"):
         return [k, str(len(t[1]))] + [w for x in t[1] for w in tok(x)]
     if k == "lit":
@@ -298,17 +360,21 @@ def subterms(t):
     if k in ("un", "uo", "tf"):
         for x in t[1]:
             yield from subterms(x)
-    elif k in ("an", "li", "se", "tv", "ty", "caE"):
+    elif k in ("an", "li", "se", "tv", "ty", "caE", "sq"):
         yield from subterms(t[1])
-    elif k == "di":
+    elif k in ("di", "mp"):
         yield from subterms(t[1])
         yield from subterms(t[2])
     elif k == "caP":
         yield from subterms(t[2])
 
 
+def _annotated_any(t) -> bool:
+    return any(x[0] == "an" and x[1] == ["any"] for x in subterms(t))
+
+
 def depth(t) -> int:
-    if t[0] in ("c", "N"):
+    if t[0] in ("c", "N", "any", "ba"):
         return 0
     return 1 + max((depth(x) for x in _children(t)), default=0)
 
@@ -317,9 +383,9 @@ def _children(t):
     k = t[0]
     if k in ("un", "uo", "tf"):
         return list(t[1])
-    if k in ("an", "li", "se", "tv", "ty", "caE"):
+    if k in ("an", "li", "se", "tv", "ty", "caE", "sq"):
         return [t[1]]
-    if k == "di":
+    if k in ("di", "mp"):
         return [t[1], t[2]]
     if k == "caP":
         return [t[2]]
@@ -439,6 +505,8 @@ CLS_POOL = {
     "NoneType": [["n"], ["i", 0]],
     "Callable": [["fn", 1, 1, 0], ["k", "A"], ["i", 1]],
     "function": [["fn", 0, 0, 0], ["k", "int"]],
+    "Sequence": [["l", [["i", 1]]], ["t", []], ["s", "ab"], ["d", []], ["st", [["i", 1]]]],
+    "Mapping": [["d", []], ["d", [[["s", "a"], ["i", 1]]]], ["l", []]],
     "A": [["o", "A"], ["o", "B"], ["o", "D"]],
     "B": [["o", "B"], ["o", "C"], ["o", "A"]],
     "C": [["o", "C"], ["o", "B"]],
@@ -456,6 +524,23 @@ def pool(t, cap=10):
         out = list(CLS_POOL[t[1]])
     elif k == "N":
         out = [["n"], ["i", 0]]
+    elif k == "any":
+        out = list(GLOBAL_POOL)
+    elif k == "ba":
+        out = list(CLS_POOL[t[1]]) + ([["fs", [["i", 1]]]] if t[1] == "set" else [])
+    elif k == "sq":
+        p = pool(t[1], 5)
+        out = [["l", []]] + [["l", [x]] for x in p[:3]] + [["t", [p[0]]], ["t", [["s", "q"], p[0]]], ["s", "ab"], ["s", ""],
+                                                             ["l", [p[0], ["s", "a"]]], ["st", [["i", 1]]], ["d", []]]
+    elif k == "mp":
+        pk = [x for x in pool(t[1], 5) if _hashable(x)]
+        pv = pool(t[2], 5)
+        out = [["d", []]]
+        if pk and pv:
+            out += [["d", [[pk[0], pv[0]]]], ["d", [[pk[0], pv[-1]]]], ["d", [[["s", "zz"], pv[0]]]]]
+            if _hashable(pv[0]):
+                out.append(["d", [[pv[0], pk[0]]]])
+        out.append(["l", []])
     elif k in ("un", "uo"):
         subs = [pool(x, 4) for x in t[1]]
         for i in range(4):
@@ -541,12 +626,18 @@ def gen_hint(rng, d, restricted=False, top=True, leaves=None):
     if d <= 0 or rng.random() < 0.15:
         if not top and rng.random() < 0.05:
             return ["N"]
+        r0 = rng.random()
+        if r0 < 0.06:
+            return ["any"]
+        if r0 < 0.14:
+            return ["ba", rng.choice([a for a in ALIASES if not (restricted and a == "set")])]
         return ["c", rng.choice(leaves)]
     r = rng.random()
     sub = lambda dd=d - 1: gen_hint(rng, dd, restricted, False, leaves)  # noqa: E731
     if r < 0.16:
         ms = [sub() for _ in range(rng.choice([2, 2, 3]))]
-        ms = [m for m in ms if m[0] in ("c", "li", "se", "di", "tf", "tv", "ty", "caE", "caP")] or [["c", "int"]]
+        ms = [m for m in ms if m[0] in ("c", "li", "se", "di", "tf", "tv", "ty", "caE", "caP", "any", "sq", "mp")] \
+            or [["c", "int"]]
         if rng.random() < 0.3:
             ms.append(["c", "NoneType"])
         return ["un", ms] if len(ms) > 1 else ["un", ms + [["c", "str"]]]
@@ -560,11 +651,17 @@ def gen_hint(rng, d, restricted=False, top=True, leaves=None):
         ls = rng.sample(LITS, rng.choice([1, 1, 2, 3]))
         if restricted:
             ls = [x for x in ls if x[0] != "b"] or [["s", "a"]]
+        elif rng.random() < 0.12:
+            return ["lit", ls]  # may list 1 next to True: typeguard's own quirk (KF-C04-5)
         return ["lit", _clean_lits(ls)]
     if r < 0.43:
         x = sub()
-        return ["an", x if x[0] not in ("an", "N") else ["c", "int"]]
-    if r < 0.54:
+        return ["an", x if x[0] not in ("an", "N", "any") else ["c", "int"]]
+    if r < 0.47:
+        return ["sq", sub()]
+    if r < 0.50 and not restricted:
+        return ["mp", gen_hint(rng, 0, restricted, True, ["str", "int", "bool", "A"]), sub()]
+    if r < 0.56:
         return ["li", sub()]
     if r < 0.60:
         return ["se", sub()]
@@ -589,15 +686,21 @@ def gen_hint(rng, d, restricted=False, top=True, leaves=None):
 
 
 SUPER = {"bool": ["int", "object"], "int": ["object"], "C": ["B", "A"], "B": ["A", "object"], "A": ["object"],
-         "type": ["Callable"], "function": ["Callable"], "float": ["object"], "str": ["object"]}
+         "type": ["Callable"], "function": ["Callable"], "float": ["object"], "str": ["object", "Sequence"],
+         "list": ["Sequence", "object"], "tuple": ["Sequence"], "dict": ["Mapping"]}
 GEN_ORIGIN = {"li": "list", "se": "set", "di": "dict", "tf": "tuple", "tv": "tuple", "ty": "type", "caE": "Callable",
-              "caP": "Callable"}
+              "caP": "Callable", "sq": "Sequence", "mp": "Mapping"}
 
 
 def generalise(rng, t, restricted=False):
     """a hint that should admit at least what `t` admits (so the comparison often says yes)"""
     k = t[0]
     r = rng.random()
+    if k == "any":
+        return rng.choice([["any"], ["c", "object"], ["un", [["any"], ["c", "NoneType"]]]] +
+                          ([] if restricted else [["uo", [["any"], ["c", "NoneType"]]]]))
+    if k == "ba":
+        return rng.choice([t, ["c", t[1]], ["c", "object"]])
     if r < 0.12 and k != "N":
         return ["an", t] if k != "an" else t
     if r < 0.3 and k != "N":
@@ -624,8 +727,14 @@ def generalise(rng, t, restricted=False):
         return ["lit", _clean_lits(t[1] + rng.sample(more, min(len(more), rng.choice([0, 1, 2]))))]
     if k == "an":
         return generalise(rng, t[1], restricted) if rng.random() < 0.5 else ["an", generalise(rng, t[1], restricted)]
-    if k in GEN_ORIGIN and r < 0.45:
+    if k in GEN_ORIGIN and r < 0.38:
         return ["c", GEN_ORIGIN[k]]
+    if k in GEN_ORIGIN and r < 0.47 and not (restricted and GEN_ORIGIN[k] == "set"):
+        return ["ba", GEN_ORIGIN[k]]
+    if k == "sq":
+        return ["sq", generalise(rng, t[1], restricted)]
+    if k == "mp":
+        return ["mp", t[1], generalise(rng, t[2], restricted)] if rng.random() < 0.7 else ["mp", t[2], t[1]]
     if k in ("li", "se", "tv", "ty"):
         if k == "ty":
             return t
@@ -662,6 +771,9 @@ def enum_depth1(leaves=None):
     out += [["tf", []]] + [["tf", [c]] for c in cl[:4]] + [["tf", [a, b]] for a in cl[:3] for b in cl[:3]]
     out += [["tv", c] for c in cl]
     out += [["ty", c] for c in cl]
+    out += [["any"], ["c", "Sequence"], ["c", "Mapping"]] + [["ba", a] for a in ALIASES]
+    out += [["sq", c] for c in cl[:4]] + [["mp", ["c", "str"], c] for c in cl[:3]] + [["mp", ["c", "int"], ["c", "str"]]]
+    out += [["li", ["any"]], ["tf", [cl[0], ["any"]]], ["un", [["any"], cl[4]]], ["uo", [["any"], cl[4]]]]
     out += [["caE", c] for c in cl[:3]] + [["caP", [], cl[0]], ["caP", ["int"], cl[0]], ["caP", ["int"], cl[1]],
                                            ["caP", ["bool"], cl[0]], ["caP", ["int", "str"], cl[0]],
                                            ["caP", ["int"], ["N"]]]
@@ -669,7 +781,11 @@ def enum_depth1(leaves=None):
 
 
 def _pair(h, o, rng, mode):
-    return {"kind": "pair", "h": h, "o": o, "strict": 0 if rng.random() < 0.1 else 1, "mode": mode}
+    c = {"kind": "pair", "h": h, "o": o, "strict": 0 if rng.random() < 0.1 else 1, "mode": mode}
+    k = rng.random()
+    if k < 0.2:
+        c["sp"] = [1, 1] if k < 0.08 else ([1, 0] if k < 0.14 else [0, 1])  # spelled with the typing aliases
+    return c
 
 
 def gen_cases(rng, tier):
@@ -694,7 +810,7 @@ def gen_cases(rng, tier):
         restricted = i % 2 == 0
         d = rng.choice([1, 1, 2, maxd])
         h = gen_hint(rng, d, restricted) if rng.random() < 0.8 else rng.choice(E1)
-        if restricted and any(x[0] == "uo" or x == ["tf", []] or x in (["c", "float"], ["c", "set"]) or
+        if restricted and any(x[0] in ("uo", "mp") or x == ["tf", []] or x in (["c", "float"], ["c", "set"], ["ba", "set"]) or
                               (x[0] == "lit" and any(l[0] == "b" for l in x[1])) for x in subterms(h)):
             restricted = False
         o = generalise(rng, h, restricted)
@@ -704,6 +820,7 @@ def gen_cases(rng, tier):
             h, o = o, h
         yield _pair(h, o, rng, "restricted" if restricted else "full")
     yield from gen_gate_cases(rng, tier)
+    yield from gen_exotic_cases(rng, tier)
 
 
 # hand-picked pairs for the systematic part of the gate cases: (sending hint, receiving hint)
@@ -797,6 +914,19 @@ def corpus():
     yield P(["se", I], ["c", "set"])
     yield P(["tf", [I]], ["tf", []])
     yield P(["tv", I], ["tf", []])
+    # the enlarged grammar: Mapping's arguments under the subset rule, typing.Tuple vs tuple[()], Any inside typing.Union
+    yield P(["mp", S, I], ["mp", I, S])
+    yield {**P(["mp", S, ["c", "bool"]], ["mp", S, I]), "sp": [1, 0]}
+    yield P(["ba", "tuple"], ["tf", []])
+    yield {**P(["tf", [I]], ["tf", []]), "sp": [1, 1]}
+    yield P(["any"], ["uo", [["any"], NT]])
+    yield P(["any"], ["un", [["any"], NT]])
+    yield P(["li", I], ["ba", "list"])
+    yield P(["tf", [I, S]], ["ba", "tuple"])
+    yield P(["sq", ["c", "bool"]], ["sq", ["un", [I, S]]])
+    yield P(["c", "str"], ["c", "Sequence"])
+    yield {**P(["se", I], ["ba", "set"]), "sp": [1, 0]}
+    yield {**P(["ty", ["c", "list"]], ["ty", ["c", "Sequence"]]), "vals": [["k", c] for c in CLS]}
     yield P(["lit", [["b", True]]], ["lit", [["i", 1], ["b", True]]])
     # lazy evaluation: an old union behind an earlier False is never reached
     yield P(["tf", [I, ["uo", [I, S]]]], ["tf", [S, ["uo", [I, S]]]])
@@ -837,6 +967,16 @@ def corpus():
     yield G("mo", 1, 1, h=["an", F], o=F, pre=["i", 1])
     yield G("kw", 0, 1, h=None, o=I, post=[["push", ["s", "a"]]])
     yield G("io", 0, 1, h=S, o=None, post=[["push", ["i", 1]]])
+    X = lambda a, b: {"kind": "exotic", "h": a, "o": b, "mode": "corpus"}  # noqa: E731
+    yield X("type[list[int]]", "type")
+    yield X("Annotated[Any]", "Any")
+    yield X("Mapping[str,int]", "tMapping[str,int]")
+    yield X("MutableMapping[str,int]", "MutableMapping[int,str]")
+    yield X("Tuple", "Tuple[()]")
+    yield X("Any", "Optional[Any]")
+    yield X("G2[int,str]", "G2[str,int]")
+    yield X("np.float64", "float")
+    yield X("Quantity", "object")
 
 
 # ----------------------------------------------------------------------------- implementation side
@@ -1018,13 +1158,19 @@ def _gate_matrix(H, O):
 def run_impl(case):
     if case["kind"] == "gate":
         return run_gate(case)
+    if case["kind"] == "exotic":
+        return run_exotic(case)
     if case["kind"] == "malformed":
         return {"obs": ["bad-op"] * len(case["lines"]), "stats": {"malformed": 1}, "skip": False, "variant": variant()}
     try:
-        H, O = build(case["h"]), build(case["o"])
+        sp = case.get("sp", [0, 0])
+        H, O = build(case["h"], sp[0]), build(case["o"], sp[1])
         th, to = abstract(H), abstract(O)
     except (Unsupported, TypeError) as e:
         return {"obs": [], "skip": True, "why": repr(e), "stats": {"skipped-unbuildable": 1}}
+    if _annotated_any(th) or _annotated_any(to):
+        # typing collapses e.g. Union[Any, Any] to Any; valid_value raises for Annotated[Any, m] (KF-C04-7, exotic cases)
+        return {"obs": [], "skip": True, "why": "Annotated[Any]", "stats": {"skipped-annotated-any": 1}}
     strict = case.get("strict", 1)
     vals = []
     seen = set()
@@ -1057,7 +1203,8 @@ def run_impl(case):
     stats = {f"cmp:{r_ho}": 1, f"refl:{r_hh}": 1, f"mode:{case.get('mode')}": 1, f"conn:{conn}": 1,
              "variant:" + "".join(map(str, variant())): 1,
              "admitted-by-output": sum(a["h"] == "T" for a in adm), "witnesses": len(adm),
-             f"kind:{th[0]}>{to[0]}": 1, f"depth:{max(depth(th), depth(to))}": 1}
+             f"kind:{th[0]}>{to[0]}": 1, f"depth:{max(depth(th), depth(to))}": 1,
+             f"spelling:{''.join(map(str, case.get('sp', [0, 0])))}": 1}
     if r_ho == "T":
         stats["accepted-with-admitted-witness"] = int(any(a["h"] == "T" for a in adm))
     for row in matrix:
@@ -1071,6 +1218,8 @@ def run_impl(case):
 def nontrivial(case, r):
     if r.get("skip"):
         return False
+    if case["kind"] == "exotic":
+        return r["cmp"][0] in ("T", "F")
     if case["kind"] == "gate":
         return r["link"] in ("ok", "refused", "receiver-rejects") and r["th"] is not None and r["to"] is not None
     return case["kind"] == "pair" and r["cmp"][0] in ("T", "F") and (r["th"][0] != "c" or r["to"][0] != "c")
@@ -1396,6 +1545,8 @@ def run_gate(case):
         to = None if O is None else abstract(O)
     except (Unsupported, TypeError) as e:
         return {"obs": [], "skip": True, "why": repr(e), "stats": {"skipped-unbuildable": 1}}
+    if (th and _annotated_any(th)) or (to and _annotated_any(to)):
+        return {"obs": [], "skip": True, "why": "Annotated[Any]", "stats": {"skipped-annotated-any": 1}}
     via = case["via"]
     ss, sr = int(case.get("ss", 1)), int(case.get("sr", 1))
     if via == "ctor":
@@ -1594,6 +1745,245 @@ def gate_oracle(case, r):
     return fails
 
 
+# ----------------------------------------------------------------------------- exotic cases: hints beyond the model
+
+_EXOTIC = None
+EXOTIC_FAMILIES = {
+    "seq": ["list", "List", "List[int]", "list[int]", "list[bool]", "Sequence", "Sequence[int]", "Sequence[bool]", "tSequence[int]",
+            "MutableSequence[int]", "Iterable[int]", "Collection[int]", "Deque[int]", "list[T]", "list[Any]", "tuple[int,...]"],
+    "map": ["dict", "Dict", "Dict[str,int]", "dict[str,int]", "Mapping", "Mapping[str,int]", "Mapping[int,str]", "tMapping[str,int]",
+            "MutableMapping[str,int]", "MutableMapping[int,str]", "OrderedDict[str,int]", "OrderedDict[int,str]",
+            "defaultdict[str,int]", "Counter[str]", "ChainMap[str,int]", "TD", "TD2"],
+    "tuple": ["tuple", "Tuple", "Tuple[int]", "tuple[int]", "tuple[()]", "Tuple[()]", "tuple[int,...]", "tuple[int,*tuple[str,...]]"],
+    "set": ["Set[int]", "FrozenSet[int]", "frozenset[int]", "AbstractSet[int]", "set[int]"],
+    "type": ["type", "Type", "Type[int]", "type[int]", "type[list[int]]", "type[Any]", "type[T]", "type[A]"],
+    "any": ["Any", "object", "T", "TB", "TC", "UID", "Annotated[Any]", "Annotated[int]", "Optional[Any]", "Any|None", "Self", "Never",
+            "NoReturn", "LiteralString", "Final[int]", "ClassVar[int]"],
+    "callable": ["Callable", "abcCallable", "callable", "Callable[[int],str]", "Callable[[bool],str]", "Callable[[list[int]],str]",
+                 "Callable[...,str]", "Callable[[Callable[[int],int]],int]", "Callable[Concatenate[int,...],int]", "Callable[P,int]"],
+    "literal": ["Literal[1,True]", "Literal[True,1]", "Literal[1]", "Literal[True]", "Literal['a']", "Literal[None]", "Literal[0,False]"],
+    "num": ["int", "bool", "float", "complex", "np.float64", "np.int64", "np.integer", "np.bool_", "ndarray", "NDArray[float64]",
+            "NDArray[int64]", "Quantity", "int|float", "Union[int,float]"],
+    "misc": ["'int'", "ForwardRef('int')", "Pr", "RPr", "G", "G[int]", "G[str]", "G2[int,str]", "G2[str,int]", "Generator[int,None,str]",
+             "Awaitable[int]", "None", "NoneType", "Ellipsis", "3", "str", "bytes", "A", "B"],
+}
+
+
+def _exotic():
+    """name -> real hint; everything `typing` offers that people put on a node signature, in or out of the model"""
+    global _EXOTIC
+    if _EXOTIC is not None:
+        return _EXOTIC
+    import collections
+    import collections.abc as abc
+    import warnings
+    from typing import (Annotated, Any, Callable, ClassVar, Concatenate, Final, ForwardRef, Generic, Literal, LiteralString,
+                        Never, NewType, NoReturn, Optional, ParamSpec, Protocol, Self, TypedDict, TypeVar, Union,
+                        runtime_checkable)
+
+    import numpy as np
+    import pint
+
+    warnings.simplefilter("ignore")
+    T, U = TypeVar("T"), TypeVar("U")
+    TB, TC = TypeVar("TB", bound=int), TypeVar("TC", int, str)
+
+    class TD(TypedDict):
+        a: int
+
+    class TD2(TypedDict):
+        a: str
+
+    class Pr(Protocol):
+        def f(self) -> int: ...
+
+    @runtime_checkable
+    class RPr(Protocol):
+        def f(self) -> int: ...
+
+    class G(Generic[T]):
+        pass
+
+    class G2(Generic[T, U]):
+        pass
+
+    _EXOTIC = {
+        "int": int, "bool": bool, "float": float, "str": str, "object": object, "list": list, "tuple": tuple, "dict": dict,
+        "A": A, "B": B, "complex": complex, "bytes": bytes, "type": type,
+        "List": typing.List, "List[int]": typing.List[int], "list[int]": list[int], "list[bool]": list[bool],
+        "Dict": typing.Dict, "Dict[str,int]": typing.Dict[str, int], "dict[str,int]": dict[str, int],
+        "Tuple": typing.Tuple, "Tuple[int]": typing.Tuple[int], "tuple[int]": tuple[int], "tuple[()]": tuple[()],
+        "Tuple[()]": typing.Tuple[()], "tuple[int,...]": tuple[int, ...], "tuple[int,*tuple[str,...]]": tuple[int, *tuple[str, ...]],
+        "Set[int]": typing.Set[int], "set[int]": set[int], "FrozenSet[int]": typing.FrozenSet[int], "frozenset[int]": frozenset[int],
+        "AbstractSet[int]": abc.Set[int],
+        "Type": typing.Type, "Type[int]": typing.Type[int], "type[int]": type[int], "type[list[int]]": type[list[int]],
+        "type[Any]": type[Any], "type[T]": type[T], "type[A]": type[A],
+        "Any": Any, "T": T, "TB": TB, "TC": TC, "UID": NewType("UID", int), "list[T]": list[T], "list[Any]": list[Any],
+        "Sequence": abc.Sequence, "Sequence[int]": abc.Sequence[int], "Sequence[bool]": abc.Sequence[bool],
+        "tSequence[int]": typing.Sequence[int], "MutableSequence[int]": abc.MutableSequence[int], "Iterable[int]": abc.Iterable[int],
+        "Collection[int]": abc.Collection[int], "Deque[int]": collections.deque[int],
+        "Mapping": abc.Mapping, "Mapping[str,int]": abc.Mapping[str, int], "Mapping[int,str]": abc.Mapping[int, str],
+        "tMapping[str,int]": typing.Mapping[str, int], "MutableMapping[str,int]": abc.MutableMapping[str, int],
+        "MutableMapping[int,str]": abc.MutableMapping[int, str], "OrderedDict[str,int]": collections.OrderedDict[str, int],
+        "OrderedDict[int,str]": collections.OrderedDict[int, str], "defaultdict[str,int]": collections.defaultdict[str, int],
+        "Counter[str]": collections.Counter[str], "ChainMap[str,int]": collections.ChainMap[str, int], "TD": TD, "TD2": TD2,
+        "Callable": typing.Callable, "abcCallable": abc.Callable, "callable": callable, "Callable[[int],str]": Callable[[int], str],
+        "Callable[[bool],str]": Callable[[bool], str], "Callable[[list[int]],str]": Callable[[list[int]], str],
+        "Callable[...,str]": Callable[..., str], "Callable[[Callable[[int],int]],int]": Callable[[Callable[[int], int]], int],
+        "Callable[Concatenate[int,...],int]": Callable[Concatenate[int, ...], int], "Callable[P,int]": Callable[ParamSpec("P"), int],
+        "Literal[1,True]": Literal[1, True], "Literal[True,1]": Literal[True, 1], "Literal[1]": Literal[1],
+        "Literal[True]": Literal[True], "Literal['a']": Literal["a"], "Literal[None]": Literal[None],
+        "Literal[0,False]": Literal[0, False],
+        "Optional[Any]": Optional[Any], "Any|None": Any | None, "int|float": int | float, "Union[int,float]": Union[int, float],
+        "None": None, "NoneType": type(None), "'int'": "int", "ForwardRef('int')": ForwardRef("int"), "Self": Self, "Never": Never,
+        "NoReturn": NoReturn, "LiteralString": LiteralString, "Final[int]": Final[int], "ClassVar[int]": ClassVar[int],
+        "Annotated[Any]": Annotated[Any, "m"], "Annotated[int]": Annotated[int, "m"],
+        "Pr": Pr, "RPr": RPr, "G": G, "G[int]": G[int], "G[str]": G[str], "G2[int,str]": G2[int, str], "G2[str,int]": G2[str, int],
+        "Generator[int,None,str]": abc.Generator[int, None, str], "Awaitable[int]": abc.Awaitable[int],
+        "np.float64": np.float64, "np.int64": np.int64, "np.integer": np.integer, "np.bool_": np.bool_, "ndarray": np.ndarray,
+        "NDArray[float64]": np.typing.NDArray[np.float64], "NDArray[int64]": np.typing.NDArray[np.int64],
+        "Quantity": pint.Quantity, "Ellipsis": ..., "3": 3,
+    }
+    _EXOTIC["__instances__"] = {"G": G, "G2": G2, "TD": TD}
+    return _EXOTIC
+
+
+_EXO_VALUES = None
+_EXO_ADM = {}
+
+
+def _exotic_values():
+    """adversarial witnesses: C03's pool (look-alikes of pint quantities, lying numbers, subclass instances with odd
+    __eq__/__hash__, pint quantities, numpy scalars/arrays) + plain near misses; (tag, value)"""
+    global _EXO_VALUES
+    if _EXO_VALUES is None:
+        import collections
+
+        from . import nodes_c03 as adv
+
+        class HasF:
+            def f(self):
+                return 1
+
+        ex = _exotic()["__instances__"]
+        plain = [0, 1, True, False, 2.5, "a", "", None, [], [1], ["a"], [True], (), (1,), ("a",), (1, "a"), {}, {"a": 1},
+                 {1: "a"}, {"a": "x"}, {1}, frozenset({1}), int, bool, str, list, A, B, A(), B(), FUNCS[(1, 1, 0)], len,
+                 collections.OrderedDict(a=1), collections.OrderedDict({1: "a"}), collections.deque([1]), 1 + 2j, b"x",
+                 range(2), HasF(), ex["G"](), ex["G2"](), ex["TD"](a=1)]
+        vals = [(f"plain{i}:{type(v).__name__}", v) for i, v in enumerate(plain)]
+        for k in adv.ADV_KEYS:
+            if k == 202:
+                continue  # NOT_DATA is never type checked
+            v = adv.make(k)
+            vals.append((f"adv{k}:{adv.tag(v)}"[:60], v))
+        _EXO_VALUES = vals
+    return _EXO_VALUES
+
+
+def _exo_adm(name):
+    if name not in _EXO_ADM:
+        h = _exotic()[name]
+        _EXO_ADM[name] = [_vv(v, h) for _, v in _exotic_values()]
+    return _EXO_ADM[name]
+
+
+def _exo_kind(h):
+    g = typing.get_origin(h)
+    if g is typing.Annotated and h.__origin__ is typing.Any:
+        return "annotated-any"
+    if g is type and typing.get_args(h) and typing.get_origin(typing.get_args(h)[0]) is not None:
+        return "type-of-generic"
+    return "other"
+
+
+def run_exotic(case):
+    ex = _exotic()
+    H, O = ex[case["h"]], ex[case["o"]]
+    r_ho, r_hh = _cmp(H, O), _cmp(H, H)
+    gates = [[via, ss, _gate_raw(via, H, O, ss, 1)] for via in RAW_VIAS for ss in (0, 1)] if H is not None and O is not None else []
+    ah, ao = _exo_adm(case["h"]), _exo_adm(case["o"])
+    tags = [t for t, _ in _exotic_values()]
+    bad = [i for i in range(len(tags)) if ah[i] == "T" and ao[i] == "F"]
+    # an adversarial value whose own overridden __eq__/__len__/... raises is no defect of valid_value: crashes are
+    # judged on the plain values only
+    crash = [(t, a, name) for name, adm in ((case["h"], ah), (case["o"], ao)) for t, a in zip(tags, adm)
+             if a not in ("T", "F") and t.startswith("plain")]
+    tg_bad = None
+    if bad:
+        tg_bad = _tg_only(_exotic_values()[bad[0]][1], O)
+    g, go = typing.get_origin(H), typing.get_origin(O)
+    import collections.abc as abc
+    facts = {"same_origin": g is not None and g == go, "nargs": len(typing.get_args(O)),
+             "origin_ordered": g in (dict, tuple, abc.Callable), "is_literal": g is typing.Literal,
+             "empty_other": g is tuple and go is tuple and len(typing.get_args(O)) == 0 and hasattr(O, "__args__")}
+    stats = {"mode:exotic": 1, f"exotic-cmp:{r_ho if r_ho in ('T', 'F', 'REC') else 'EXC'}": 1,
+             "exotic-accepted-with-admitted-witness": int(r_ho == "T" and any(a == "T" for a in ah)),
+             "exotic-witnesses": len(tags), "variant:" + "".join(map(str, variant())): 1}
+    return {"obs": [], "skip": False, "cmp": [r_ho, r_hh], "gates": gates, "bad": [tags[i] for i in bad[:3]], "tg_bad": tg_bad,
+            "crash": crash[:3], "crash_kind": _exo_kind(ex[crash[0][2]]) if crash else None, "facts": facts, "stats": stats,
+            "variant": variant()}
+
+
+def exotic_oracle(case, r):
+    fails = []
+    r_ho, r_hh = r["cmp"]
+    f = r["facts"]
+
+    def fail(clause, detail, **sig):
+        fails.append({"clause": clause, "detail": f"{detail}  [exotic out={case['h']} inp={case['o']}]",
+                      "signature": {"clause": clause, "trigger": "exotic", "restricted": False, **sig}})
+
+    if r_ho not in ("T", "F") or r_hh not in ("T", "F"):
+        fail("total", f"comparison raised: {r_ho} / {r_hh}", exc=r_ho if r_ho not in ("T", "F") else r_hh, old_union=False)
+    elif r_hh == "F":
+        fail("not-reflexive", f"cmp({case['h']},{case['h']}) is False")
+    accepted = r_ho == "T" or any(g[2] == "ok" for g in r["gates"])
+    if accepted and r["bad"]:
+        if r["tg_bad"] is True:
+            cause = "isinstance-shortcut"
+        elif f["is_literal"]:
+            cause = "typeguard-literal-index"
+        elif f["empty_other"]:
+            cause = "empty-tuple"
+        elif f["same_origin"] and f["nargs"] >= 2 and not f["origin_ordered"]:
+            cause = "unordered-args"
+        else:
+            cause = "other"
+        fail("unsound", f"accepted (cmp={r_ho}, gates={[g for g in r['gates'] if g[2] == 'ok'][:2]}), but {r['bad']} are admitted by "
+                        f"the sending hint and rejected by the receiving hint", cause=cause)
+    for via, ss, got in r["gates"]:
+        if got not in ("ok", "refused", "REC"):
+            fail("crash", f"the gate raised: {got} via={via}", where="gate", via=via)
+            break
+        if got != {"T": "ok", "F": "refused"}.get(r_ho, r_ho):
+            fail("connect-consults-comparison", f"gate via={via} sender strict={ss}: {got}, comparison says {r_ho}", via=via)
+            break
+    if r["crash"]:
+        t, a, name = r["crash"][0]
+        fail("crash", f"valid_value raised {a} for witness {t} against {name}", where="valid_value",
+             exc=a.split(":")[1] if ":" in a else a, hint_kind=r["crash_kind"])
+    return fails
+
+
+def gen_exotic_cases(rng, tier):
+    names = [n for n in _exotic() if not n.startswith("__")]
+    if tier != "quick":
+        for a in names:
+            for b in names:
+                yield {"kind": "exotic", "h": a, "o": b, "mode": "exotic"}
+        return
+    seen = set()
+    for fam in EXOTIC_FAMILIES.values():
+        fam = [n for n in fam if n in _exotic()]
+        for a in fam:
+            for b in (fam if len(fam) <= 10 else rng.sample(fam, 10)):
+                seen.add((a, b))
+    for _ in range(500):
+        seen.add((rng.choice(names), rng.choice(names)))
+    for a, b in sorted(seen):
+        yield {"kind": "exotic", "h": a, "o": b, "mode": "exotic"}
+
+
 # ----------------------------------------------------------------------------- model side
 
 
@@ -1604,6 +1994,8 @@ def model_input(case, impl=None):
         return []
     if case["kind"] == "gate":
         return gate_model_input(case, impl)
+    if case["kind"] == "exotic":
+        return []  # beyond the modelled grammar: oracle only
     h, o = " ".join(tok(impl["th"])), " ".join(tok(impl["to"]))
     s = impl["strict"]
     lines = ["cfg " + " ".join(map(str, impl["variant"])),
@@ -1638,7 +2030,7 @@ def _restricted(th, to) -> bool:
     """the sub-grammar on which no failure is excusable (hypotheses of C04_sound_partial hold for every value)"""
     for t in (th, to):
         for s in subterms(t):
-            if s[0] == "uo" or s == ["tf", []] or s in (["c", "float"], ["c", "set"]):
+            if s[0] in ("uo", "mp") or s == ["tf", []] or s in (["c", "float"], ["c", "set"], ["ba", "set"]):
                 return False
             if s[0] == "lit" and any(x[0] == "b" for x in s[1]):
                 return False
@@ -1664,6 +2056,8 @@ def _unsound_witness(adm, th, to):
                 cause = "literal-bool-int"
             elif any(s == ["tf", []] for s in subterms(to)):
                 cause = "empty-tuple"
+            elif any(s[0] == "mp" for s in subterms(to)):
+                cause = "unordered-args"
             else:
                 cause = "other"
             return a, cause
@@ -1675,6 +2069,8 @@ def oracle(case, r):
         return []
     if case["kind"] == "gate":
         return gate_oracle(case, r)
+    if case["kind"] == "exotic":
+        return exotic_oracle(case, r)
     if case["kind"] != "pair":
         return []
     th, to = r["th"], r["to"]
@@ -1755,15 +2151,15 @@ def _shrinks(t):
         for i, x in enumerate(t[1]):
             for y in _shrinks(x):
                 yield [k, t[1][:i] + [y] + t[1][i + 1:]]
-    elif k in ("an", "li", "se", "tv", "ty", "caE"):
+    elif k in ("an", "li", "se", "tv", "ty", "caE", "sq"):
         for y in _shrinks(t[1]):
-            if not (k == "an" and y[0] == "an"):
+            if not (k == "an" and y[0] in ("an", "any")):
                 yield [k, y]
-    elif k == "di":
+    elif k in ("di", "mp"):
         for y in _shrinks(t[1]):
-            yield ["di", y, t[2]]
+            yield [k, y, t[2]]
         for y in _shrinks(t[2]):
-            yield ["di", t[1], y]
+            yield [k, t[1], y]
     elif k == "caP":
         for y in _shrinks(t[2]):
             yield ["caP", t[1], y]
@@ -1791,6 +2187,8 @@ def shrink_candidates(case):
         return
     if case["kind"] != "pair":
         return
+    if case.get("sp"):
+        yield {**case, "sp": [0, 0]}
     for h in _shrinks(case["h"]):
         yield {**case, "h": h}
     for o in _shrinks(case["o"]):
